@@ -188,6 +188,9 @@ pub fn build_world(seed: u64, idx: u64, out: &mut RunOut) -> World {
         "root = [* (int .feature \"featx\") / tstr]\n",
         "root = { a: (tstr .feature \"featx\") / int, ? b: (uint .feature \"other\") / bool }\n",
         "root = (tstr / int) .feature \"featx\"\n",
+        "root = [* any]\n",
+        "root = [* int / tstr / bstr]\n",
+        "root = any\n",
       ]))
       .to_string(),
       None,
@@ -291,9 +294,10 @@ pub fn build_world(seed: u64, idx: u64, out: &mut RunOut) -> World {
         n_docs += 1;
       }
     }
-    if n_docs == 0 || rk.chance(1, 3) {
+    if n_docs == 0 || rk.chance(2, 5) {
       let shown = if rw.coin() { doc.clone() } else { perturb(&mut rw, &dcfg, &doc) };
-      let b = match rf.below(5) {
+      let edge_int = *rf.pick(&[9i128, 10, 12, 13, 32, -1, -10, -14]);
+      let b = match rf.below(10) {
         0 | 1 => to_json(&shown).into_bytes(),
         2 => {
           let mut b = Vec::new();
@@ -301,7 +305,26 @@ pub fn build_world(seed: u64, idx: u64, out: &mut RunOut) -> World {
           b
         }
         3 => Vec::new(),
-        _ => to_cbor_min(&Doc::Int(rw.below(24) as i128)), // CBOR that is also valid UTF-8
+        4 => to_cbor_min(&Doc::Int(rw.below(24) as i128)), // CBOR that is also valid UTF-8
+        5 => {
+          // JSON surrounded by the white space real producers emit
+          let mut b = (*rf.pick(&["", " ", "\n", "\r\n", "\t", "\u{c}", "\u{feff}"])).as_bytes().to_vec();
+          b.extend_from_slice(to_json(&shown).as_bytes());
+          b.extend_from_slice((*rf.pick(&["\n", "\r\n", " ", "\n\n", "\u{c}", ""])).as_bytes());
+          b
+        }
+        6 | 7 => {
+          // CBOR (not UTF-8) whose last byte is an ASCII white-space value: [.., 9|10|12|13|32] or a text ending in one
+          let d = if rf.coin() { Doc::Array(vec![shown.clone(), Doc::Int(edge_int)]) } else { Doc::Array(vec![Doc::Bytes(vec![0xff]), Doc::Text(format!("x{}", rf.pick(&[" ", "\n", "\t", "\r"])))]) };
+          to_cbor_min(&d)
+        }
+        8 => {
+          // CBOR whose first byte is an ASCII white-space value (uint 9, 10, 12, 13; nint -1 is 0x20) followed by junk
+          let mut b = to_cbor_min(&Doc::Int(edge_int));
+          b.push(0xff);
+          b
+        }
+        _ => to_cbor_min(&Doc::Array(vec![Doc::Int(edge_int)])),
       };
       out.fault("stdin_supplied");
       w.stdin = Some(b);
